@@ -6,7 +6,7 @@ from harness import core, impl, model, gen, xmlsx, stages, eidlib, absdoc
 TRANSLATORS = ['parser', 'grammar', 'types', 'xml', 'libs', 'xsl']
 LEVEL = 'proof'
 ROOTS = ['act', 'bill', 'doc', 'statement', 'debateReport', 'judgment', 'debate']
-RULE = ('xslstr stage: the string templates of akn_text.xsl (escape-inlines, escape-prefixes, escape-hyphens/slashes for num, string-ltrim, '
+RULE = ('unp stage: unparse() of the implementation against Model/UnparseDoc.v on poisoned documents, random AKN-shaped trees outside the parser\'s image, slot/footnote/attribute documents. xslstr stage: the string templates of akn_text.xsl (escape-inlines, escape-prefixes, escape-hyphens/slashes for num, string-ltrim, '
         'escape-inlines-start-end in five contexts), called through an importing stylesheet, against Model/Unparse.v on adversarial strings. Oracles on '
         'the implementation: (1) poison: text nodes, nums and attribute values of parser-produced documents (C04 generator, seven roots) replaced by random '
         'strings over every grammar keyword, marker, brace, backslash, dash, dot, pipe and non-ASCII characters; unparse must not raise or modify the tree, '
@@ -19,7 +19,7 @@ RULE = ('xslstr stage: the string templates of akn_text.xsl (escape-inlines, esc
 TRUSTED_BASE = [
     'Coq 8.16.1 kernel; vm_compute for the table theorems; no axioms',
     'translator gen_tables_xsl.py (escape lists read from the xsl:if test, the replace chain read from the nested call-templates)',
-    'hand model Model/Unparse.v of the string templates, tied by the xslstr stage; libxslt and the element templates are exercised, not modelled',
+    'hand models Model/Unparse.v (string templates) and Model/UnparseDoc.v (every element and text template), tied to libxslt running the stylesheet by the xslstr and unp stages (one namespace; comments and PIs not modelled)',
     'extraction + driver; Python oracles',
 ]
 ASSUMPTIONS = ['whitespace at the edges of text blocks and attribute values, tabs and runs of spaces in attribute values are not representable and not claimed (listed finding for attribute values)',
@@ -332,8 +332,38 @@ def replay_xslstr(case):
     print('implementation == model:', x == y, repr(x), repr(y))
     return x == y
 
+def _unp_trees(seed):
+    import random
+    rng = random.Random(seed)
+    out = []
+    k = seed % 4
+    if k == 0:
+        root = rng.choice(ROOTS)
+        d = absdoc.Gen(rng, footnotes=True, attrs=True, max_depth=4).document(root)
+        if d is not None:
+            try:
+                x = impl.parser().parse_to_xml(d[0], root)
+                out.append(poison(rng, x)[0])
+            except Exception:
+                pass
+    elif k == 1:
+        out.append(xmlsx.from_sx(xmlsx.norm_sx(gen.gen_akn_tree(rng))))        # trees outside the parser's image
+    elif k == 2:
+        out.append(slot_doc(rng.choice(SLOTS), ''.join(rng.choice(ATOMS) for _ in range(rng.randint(1, 4))))[1])
+        out.append(fn_doc(rng.choice(FN_POS), rng.choice(FN_WRAP), rng.randint(1, 2))[2])
+        out.append(attr_doc(rng.choice(ATTR_SLOTS), attr_value(rng)))
+    else:
+        out.append(xmlsx.from_sx(xmlsx.norm_sx(gen.gen_post_tree(rng))))
+    res = []
+    for t in out:
+        try: res.append(xmlsx.norm_sx(xmlsx.to_sx(t)))
+        except Exception: pass
+    return res
+
 def correspondence(ctx):
     stage_xslstr(ctx, xsl_cases(ctx, ctx.n(3000, 60000)))
+    seeds = [ctx.rng.randrange(1 << 30) for _ in range(ctx.n(1200, 40000))]
+    stages.stage_unp(ctx, [t for l in impl.pmap(_unp_trees, seeds, chunk=16) for t in l])
 
 def search(ctx, budget):
     import random
@@ -441,8 +471,9 @@ LEVEL_TEXT = ('Partial. Proved on the tables regenerated from akn_text.xsl and a
               'none of ** // __ {{ }} can open or close an inline (C06_escape_inlines_lossless, C06_escape_inlines_no_live_marker); and the chain through the '
               'grammar regenerated from akn.peg and the dict stage: for every non-empty string of scalar values, anywhere on a line of any input, inline+ '
               'reads escape-inlines(s) up to the line end and to_dict turns that run into text nodes only, whose values spell s again - escaped text '
-              'cannot become inline markup (C06_escaped_text_parses_as_text). The string '
-              'templates are modelled in Gallina (Model/Unparse.v) and tied to the stylesheet by the xslstr stage. That escaped text re-parses as the same '
+              'cannot become inline markup (C06_escaped_text_parses_as_text); and for every text node in every context, what the unparser model writes for it reads '
+              'back as the text itself, trimmed only where the stylesheet trims (C06_text_node_lossless). The string '
+              'templates and all element templates are modelled in Gallina (Model/Unparse.v, Model/UnparseDoc.v) and tied to libxslt running the stylesheet by the xslstr and unp stages. That escaped text re-parses as the same '
               'text is decided by the oracles on the implementation: exhaustive strings of up to 3 atoms of the adversarial alphabet x 22 text positions, '
               'every keyword x 7 block positions x 6 continuations, random poisoning of generated documents, elements without syntax (no text dropped), '
               'attribute values, unparse leaves its argument unmodified and does not raise.')
